@@ -30,8 +30,10 @@ theorem is_empty_eq (key : α → κ) (P : Nat) (m : ASet α) (hle : m.len ≤ m
   by_cases h : m.len = 0 <;> simp [h]
 theorem is_full_eq (key : α → κ) (P : Nat) (m : ASet α) (hle : m.len ≤ m.vals.length) :
     is_full key P m = m.isFull P := by
-  show decide (len key P m = m.vals.length ∨ ¬ (m.len + 1 ≤ P)) = (m.len == m.vals.length || decide (m.len ≥ P))
-  rw [len_eq key P m hle]
+  -- (the two tests may be written in either order)
+  have hl := len_eq key P m hle
+  unfold is_full ASet.isFull ASet.slots
+  simp only [Id.run, pure, hl]
   by_cases h1 : m.len = m.vals.length <;> by_cases h2 : m.len + 1 ≤ P <;> simp [h1, h2] <;> omega
 
 /-- The state `(early result, start, end, left by its condition)` of the binary-search loop after `n` iterations
